@@ -42,7 +42,9 @@ Emit == CASE kind = "sched" ->
                LET d == 2 ^ (c.ln + c.lb) IN
                (WellFormed(d, c.f, 2 ^ c.lb, c.rem) /\ c.ln + c.lb <= IF MaxLn > 10 THEN 14 ELSE 12)
                    => PrintT(ToJson([kind |-> "sched", ln |-> c.ln, lb |-> c.lb, fold |-> c.f, rem |-> c.rem,
-                                     layers |-> NumLayers(d, c.f, 2 ^ c.lb, c.rem)]))
+                                     layers |-> NumLayers(d, c.f, 2 ^ c.lb, c.rem),
+                                     \* the last layer is at most half of the largest admissible remainder domain (the folding "jumps over" it)
+                                     jump |-> 2 * RemDomain(d, c.f, 2 ^ c.lb, c.rem) <= MaxRemainderSize(2 ^ c.lb, c.rem)]))
           [] kind = "strategy" -> PrintT(ToJson([kind |-> "strategy", s |-> c.s, accepts |-> Accepts(c.s, Chk)]))
           [] kind = "layout" -> PrintT(ToJson([kind |-> "layout", n |-> c.n, f |-> c.f, ps |-> c.ps,
                                               folded |-> FoldPositions(c.ps, c.n, c.f)]))
